@@ -6,7 +6,8 @@
                seq  |-> positions of the words found in the MAIN text, in order of occurrence there,
                meta |-> TRUE when the string was also extracted with the tokens `del` deleted,
                del  |-> the deleted positions (must equal HtmlSkip!DelX, else the clause is void),
-               same |-> both extractions gave the same body text modulo white space]
+               same |-> both extractions gave the same body text modulo white space,
+               tree |-> MIME part tree of the archive (HtmlSkipParts; [t |-> "html", k |-> <<>>] for the other wrappers)]
    TLC classifies the token string with HtmlSkip!Class and accepts the event iff every MUST
    word was seen and no MUSTNOT word was seen.
    Wrapper "eml": README ("Returns body_plain when present, else body_html") documents that an
@@ -20,6 +21,10 @@ HB == INSTANCE HtmlSkip WITH Deviations <- {"CountVoidStartTag", "AnyStartTagInc
                                              "VoidRemovableNeverCloses", "NoClose"},
                             Alphabet <- {}, MaxLen <- 0,
                             toks <- <<>>, cdata <- "", h <- [skip |-> 0, tag |-> "", body |-> FALSE, dead |-> FALSE], out <- {}
+
+\* MIME part trees (HtmlSkipParts): every event names the tree its document travelled in; the verdict does not depend on it
+\* (Depth / RichSiblings only feed the generator; TLC evaluates constant definitions eagerly, so keep them tiny here)
+P == INSTANCE HtmlSkipParts WITH Depth <- 0, RichSiblings <- FALSE, tr <- [t |-> "html", k |-> <<>>]
 
 Traces == JsonDeserialize(IOEnv.TRACE_FILE)
 
@@ -60,6 +65,7 @@ Verdict(e) == LET cls == ClassFor(e) IN
               /\ MetaOK(e)
 
 WellEvent(e) == /\ e.w \in Wrappers
+                /\ P!IsArchive(e.tree)                  \* exactly one text/html part, anywhere in the tree
                 /\ H!WellFormed(e.toks)
                 /\ SeenSet(e) \subseteq 1..Len(e.toks)
                 /\ SeqOK(e)
